@@ -49,6 +49,9 @@ CPPInstance *CPPStructType::get_move_constructor() const { return g_move_ctor; }
 CPPInstance *CPPStructType::get_move_assignment_operator() const { return g_move_assign; }
 bool CPPStructType::is_abstract() const { return vin_abstract; }
 class CPPConstType;
+static bool vin_member_const_class[NM];       // the member is of const-qualified class type (e.g. `const K k;`)
+bool CPPType::is_const() const { for (int i = 0; i < NM; i++) if (this == g_member_type[i]) return vin_member_const_scalar[i] || vin_member_const_class[i]; return false; }
+static CPPStructType *vu_member_class_type(CPPType *t) { for (int i = 0; i < NM; i++) if (t == g_member_type[i]) return vin_member_const_class[i] ? (CPPStructType *)t : (CPPStructType *)0; return (CPPStructType *)0; }
 static CPPConstType *vu_as_const_type(CPPType *t) { for (int i = 0; i < NM; i++) if (t == g_member_type[i]) return vin_member_const_scalar[i] ? (CPPConstType *)t : (CPPConstType *)0; return (CPPConstType *)0; }
 static CPPStructType *vu_as_struct_type(CPPType *t) { for (int i = 0; i < NB; i++) if ((CPPType *)g_base[i] == t) return g_base_is_struct[i] ? g_base[i] : (CPPStructType *)0; return (CPPStructType *)0; }
 // the recursive calls on the bases: record the visibility asked for, answer from the ghost description
@@ -69,7 +72,7 @@ bool CPPType::is_destructible() const { for (int i = 0; i < NM; i++) if (this ==
 bool CPPType::is_default_constructible() const { for (int i = 0; i < NM; i++) if (this == g_member_type[i]) return vin_member_type_ctor_ok[i]; return nondet_bool(); }
 
 //@extract src/cppparser/cppStructType.cxx CPPStructType::is_destructible ordinal=1 rename=__body "subst1=@\(\*di\)\._base->as_struct_type\(\)@vu_as_struct_type((*di)._base)@"
-//@extract src/cppparser/cppStructType.cxx CPPStructType::is_default_constructible ordinal=1 rename=__body "subst1=@\(\*di\)\._base->as_struct_type\(\)@vu_as_struct_type((*di)._base)@"
+//@extract src/cppparser/cppStructType.cxx CPPStructType::is_default_constructible ordinal=1 rename=__body "subst1=@\(\*di\)\._base->as_struct_type\(\)@vu_as_struct_type((*di)._base)@" "osubst2=@instance->_type->remove_const\(\)->as_struct_type\(\)@vu_member_class_type(instance->_type)@"
 //@extract src/cppparser/cppStructType.cxx CPPStructType::is_copy_constructible ordinal=1 rename=__body "subst1=@\(\*di\)\._base->as_struct_type\(\)@vu_as_struct_type((*di)._base)@"
 
 // ---- virtual functions of the class and its bases, as get_virtual_funcs() collects them (callee): up to two functions that
@@ -89,7 +92,7 @@ static void make_class() {
   sc->_variables._n = vin_nm;
   for (int i = 0; i < NM; i++) {
     g_member[i] = VU_NEW(CPPInstance); g_member_type[i] = (CPPType *)vu_alloc(8); g_member[i]->_type = g_member_type[i];
-    vin_member_static[i] = nondet_bool(); vin_member_has_init[i] = nondet_bool(); vin_member_const_scalar[i] = nondet_bool();
+    vin_member_static[i] = nondet_bool(); vin_member_has_init[i] = nondet_bool(); vin_member_const_scalar[i] = nondet_bool(); vin_member_const_class[i] = !vin_member_const_scalar[i] && nondet_bool();
     g_member[i]->_storage_class = vin_member_static[i] ? CPPInstance::SC_static : 0;
     g_member[i]->_initializer = vin_member_has_init[i] ? (CPPExpression *)vu_alloc(8) : (CPPExpression *)0;   // (only tested against null)
     sc->_variables._d[i].second = g_member[i];
